@@ -6,6 +6,7 @@ import (
 	"encoding/json"
 	"errors"
 	"fmt"
+	"os"
 	"sort"
 	"strings"
 	"time"
@@ -25,6 +26,7 @@ type c05Case struct {
 	Via   string `json:"via,omitempty"` // Exec | Query
 	Goal  string `json:"goal,omitempty"`
 	NilIO bool   `json:"nil_io,omitempty"`
+	Tag   string `json:"tag,omitempty"` // signature label for the arithmetic and stream matrices
 }
 
 var c05Tokens = []string{"a", "X", "_", "0", "1", ".", ",", "|", "(", ")", "[", "]", "{", "}", "-", "+", "\\", "'", "\"", "0'", "0x", ":-", " ", "\n", "%", "é", "1.0e", "/*", "`"}
@@ -155,6 +157,9 @@ func c05Sig(c *c05Case, kind string) string {
 	if c.Kind == "text" {
 		return "text via " + c.Via + ": " + kind
 	}
+	if c.Tag != "" {
+		return "goal " + c.Tag + ": " + kind
+	}
 	name := c.Goal
 	if i := strings.Index(name, "), "); i >= 0 && strings.HasPrefix(name, "current_output(S") {
 		name = name[i+3:]
@@ -250,6 +255,24 @@ func c05Work(w *h.W) {
 	if !w.Thorough() {
 		shapes = []string{"_", "a", "''", "[]", "1", "-1", "9223372036854775807", "1.5", "f(a)", "[a, b]", "[a|_]", "\"ab\"", "S", "(a, 1)"}
 	}
+	{
+		var p *prolog.Interpreter
+		n := 0
+		run := func(c *c05Case, nilIO bool, size int) {
+			if p == nil || n%200 == 0 {
+				p = c05NewInterp(false)
+			}
+			n++
+			w.WAL(c)
+			w.GuardFor(c, 20*time.Second)
+			kind, detail := c05RunGoal(p, c)
+			w.Unguard()
+			w.Nontrivial(c.Goal)
+			emit(c, kind, detail, size)
+		}
+		c05Arith(w, run)
+		c05Streams(w, run)
+	}
 	for _, pr := range c05Procedures() {
 		if pr.Name == "halt" {
 			continue
@@ -314,6 +337,121 @@ func c05Work(w *h.W) {
 	}
 }
 
+// (c) every evaluable functor of the dispatch tables x operand grid, under is/2 and two comparisons.
+var c05Operands = []string{"_", "a", "0", "1", "-1", "2", "63", "64", "-64", "9223372036854775807", "-9223372036854775808",
+	"0.0", "-0.0", "1.5", "-1.5", "1.0e308", "-1.0e308", "5.0e-324", "f(1)", "\"1\"", "[1]", "[1, 2]", "[]", "pi", "(1 + a)"}
+
+func c05Arith(w *h.W, run func(c *c05Case, nilIO bool, size int)) {
+	es := engine.VerifEvaluables()
+	sort.Slice(es, func(i, j int) bool {
+		if es[i].Name != es[j].Name {
+			return es[i].Name < es[j].Name
+		}
+		return es[i].Arity < es[j].Arity
+	})
+	wrap := []string{"X is %s", "%s =:= 1", "1 < %s", "%s >= 1.0", "catch(X is %s, error(E, _), true)"}
+	tag := ""
+	emitExpr := func(e string, size int) {
+		for _, wr := range wrap {
+			if !w.Mine() {
+				continue
+			}
+			run(&c05Case{Kind: "goal", Goal: fmt.Sprintf(wr, e) + " .", Tag: tag}, false, size)
+		}
+	}
+	for _, ev := range es {
+		f := ref.QuoteAtom(ev.Name)
+		tag = fmt.Sprintf("evaluable %s/%d", ev.Name, ev.Arity)
+		switch ev.Arity {
+		case 0:
+			emitExpr(f, 1)
+		case 1:
+			for _, a := range c05Operands {
+				emitExpr(f+"("+a+")", 2)
+				// nested: the operand is itself the result of each unary/binary functor on small values
+				for _, in := range es {
+					if w.Expired() {
+						return
+					}
+					switch in.Arity {
+					case 1:
+						emitExpr(f+"("+ref.QuoteAtom(in.Name)+"("+a+"))", 3)
+					case 2:
+						if w.Thorough() {
+							emitExpr(f+"("+ref.QuoteAtom(in.Name)+"("+a+", -1))", 3)
+						}
+					}
+				}
+			}
+		case 2:
+			for _, a := range c05Operands {
+				for _, b := range c05Operands {
+					if w.Expired() {
+						return
+					}
+					emitExpr(f+"("+a+", "+b+")", 3)
+				}
+			}
+		}
+	}
+}
+
+// (d) stream-argument shapes beyond the open text output stream of (b): closed and open, input and
+// output, text and binary streams of real files in the worker's scratch directory.
+var c05StreamKinds = []struct{ name, prefix string }{
+	{"closed-input", "open('c05in.txt', read, S), close(S), "},
+	{"closed-output", "open('c05out.txt', write, S), close(S), "},
+	{"text-input", "open('c05in.txt', read, S), "},
+	{"binary-input", "open('c05in.txt', read, S, [type(binary)]), "},
+	{"binary-output", "open('c05out.txt', write, S, [type(binary)]), "},
+	{"text-input-at-end", "open('c05empty.txt', read, S), "},
+	{"alias-closed", "open('c05in.txt', read, S0, [alias(al)]), close(S0), S = al, "},
+}
+
+var c05StreamOthers = []string{"_", "a", "0", "'c05in.txt'", "[]", "f(_)", "end_of_file", "[type(binary)]", "-1", "S"}
+
+func c05Streams(w *h.W, run func(c *c05Case, nilIO bool, size int)) {
+	os.WriteFile("c05in.txt", []byte("foo. bar(X). \"text\". 12 'a"), 0o644)
+	os.WriteFile("c05empty.txt", nil, 0o644)
+	for _, pr := range c05Procedures() {
+		if pr.Name == "halt" || pr.Arity == 0 || pr.Arity > 4 {
+			continue
+		}
+		for _, sk := range c05StreamKinds {
+			for pos := 0; pos < pr.Arity; pos++ {
+				seqs(pr.Arity-1, len(c05StreamOthers), func(idx []int) bool {
+					if !w.Mine() {
+						return true
+					}
+					if w.Expired() {
+						return false
+					}
+					if pr.Arity == 4 && !w.Thorough() {
+						for _, i := range idx {
+							if i >= 5 {
+								return true // quick: arity 4 uses the first five other shapes
+							}
+						}
+					}
+					var args []string
+					k := 0
+					for i := 0; i < pr.Arity; i++ {
+						if i == pos {
+							args = append(args, "S")
+						} else {
+							args = append(args, c05StreamOthers[idx[k]])
+							k++
+						}
+					}
+					goal := sk.prefix + ref.QuoteAtom(pr.Name) + "(" + strings.Join(args, ", ") + ")"
+					run(&c05Case{Kind: "goal", Goal: goal + " .", Tag: fmt.Sprintf("%s/%d [%s stream]", pr.Name, pr.Arity, sk.name)}, false, len(goal))
+					return true
+				})
+			}
+		}
+	}
+}
+
 func c05OnCrash(walCase json.RawMessage, stderr string, hung bool) *h.Violation {
 	var c c05Case
 	json.Unmarshal(walCase, &c)
@@ -355,7 +493,7 @@ func c05Replay(b []byte) (string, string, bool) {
 func init() {
 	h.Register(&h.Check{
 		ID: "C05",
-		Rule: "(a) ALL strings of <= L symbols over a 29-symbol token alphabet taken from the lexer's switch (atoms, variables, digits, '.', ',', '|', every bracket, '-', '+', '\\\\', quote characters, 0', 0x, :-, layout, %, /*, a non-ASCII letter, a float prefix) each as is, with '.', and with ' .\\n', handed to Exec and to Query; all byte strings of length 1 and (quick: every 7th; thorough: all) of length 2; (b) EVERY registered procedure (read from the interpreter through a verif-tagged accessor, so the matrix follows the code) except halt/0,1 x all tuples of 14 (thorough: 22) argument shapes for arity <= 3 and of 8 (arity 4, 5) / 6 shapes above (unbound, atoms incl. empty, [], integers incl. extremes, float, compound, proper/partial/improper list, string, a stream, callable and non-callable terms), first answer plus one retry then Close, on an interpreter with real streams and (quick: every 5th tuple) on the documented prolog.New(nil, nil). Distinct = text or goal.",
+		Rule: "(a) ALL strings of <= L symbols over a 29-symbol token alphabet taken from the lexer's switch (atoms, variables, digits, '.', ',', '|', every bracket, '-', '+', '\\\\', quote characters, 0', 0x, :-, layout, %, /*, a non-ASCII letter, a float prefix) each as is, with '.', and with ' .\\n', handed to Exec and to Query; all byte strings of length 1 and (quick: every 7th; thorough: all) of length 2; (b) EVERY registered procedure (read from the interpreter through a verif-tagged accessor, so the matrix follows the code) except halt/0,1 x all tuples of 14 (thorough: 22) argument shapes for arity <= 3 and of 8 (arity 4, 5) / 6 shapes above (unbound, atoms incl. empty, [], integers incl. extremes, float, compound, proper/partial/improper list, string, a stream, callable and non-callable terms), first answer plus one retry then Close, on an interpreter with real streams and (quick: every 5th tuple) on the documented prolog.New(nil, nil); (c) EVERY evaluable functor of eval's dispatch tables (read through a verif-tagged accessor) x a 25-value operand grid (unbound, atom, integers incl. 63/64/-64/extremes, floats incl. -0.0, largest and smallest, compound, string, lists, nested error) for both operands, unary ones also over every unary functor nested inside (thorough: every binary too), each under is/2, three comparisons and catch/3; (d) every procedure of arity 1..4 x 7 kinds of stream argument (closed input/output, open text/binary input/output, at end, closed alias) in every argument position x all tuples of 10 other shapes (quick, arity 4: 5). Distinct = text or goal.",
 		Explanation: "state = a fresh (or regularly renewed) real interpreter in an isolated worker process; transition = one Exec/Query call; oracle: the worker process survives (a fatal runtime error is attributed to the exact input through a write-ahead record, re-running the batch in fine mode), the call returns (per-case watchdog), an error raised by a predicate is error(Formal, _) with an ISO formal error term, and no returned error is the residue of a recovered Go panic",
 		Assumptions: []string{"workers run in an empty scratch directory with GOMAXPROCS=1 and a 256 MB goroutine stack limit so that unbounded recursion dies quickly", "a Go error returned for a text that does not parse is the API's way to report a syntax error and is accepted"},
 		Work:          c05Work,
